@@ -119,10 +119,31 @@ def run_stage(acc, binary, s):
             ", cached" if st.get("cached") else "", sm["executions"], sm["failures"]))
 
 
+def prefetch(stages):
+    """Run the TLC jobs of the stages concurrently; the stage loop then finds
+    their corpora in the cache (TLC results depend on the specification only)."""
+    vf.prune_cache()
+    jobs = [s for s in stages if s.module and not s.func and s.kind != "mc"]
+    if len(jobs) < 2:
+        return
+
+    def one(s):
+        try:
+            vf.run_tlc(s.module, s.cfg, workers=s.workers, simulate=s.simulate, depth=s.depth, timeout=s.timeout,
+                       name="pre-" + s.name)
+        except vf.Infra:
+            pass  # reported by the stage itself
+
+    with concurrent.futures.ThreadPoolExecutor(max_workers=max(2, vf.NCPU // 2)) as ex:
+        list(ex.map(one, jobs))
+
+
 def run_check(prop, tier, stages, rule, level="model_checking", assumptions=None, race=False):
     acc = Acc(prop, tier)
     binary = vf.build_harness(race=race)
     only = os.environ.get("VERIF_ONLY")
+    if not only:
+        prefetch(stages)
     for s in stages:
         if only and not s.name.startswith(only):
             continue
@@ -291,6 +312,8 @@ def check_C05(tier):
     acc = Acc("C05", tier)
     binary = vf.build_harness()
     only = os.environ.get("VERIF_ONLY")
+    if not only:
+        prefetch(stages_C05(tier))
     for s in stages_C05(tier):
         if only and not s.name.startswith(only):
             continue
@@ -449,14 +472,63 @@ def check_C18(tier):
     return run_check("C18", tier, stages_C18(tier), C18_RULE, assumptions=EVAL_ASSUME)
 
 
-CHECKS = {"C01": check_C01, "C02": check_C02, "C05": check_C05, "C06": check_C06, "C07": check_C07,
+# ---------------------------------------------------------------------------
+# C09, C10
+
+def stages_C09(tier):
+    return stages_variants("C09", "ptr:opt,ptr:noopt,map:opt", tier)
+
+
+C09_RULE = ("the expressions and environment assignments of the C01 corpora; each source compiled twice with the same "
+            "options (pointer-to-struct and map sample environments, optimizer on and off): the two programs must be "
+            "identical byte for byte and constant for constant (value and Go type); each program run twice per assignment: "
+            "equal results and call logs, program image, environment value and sample environment unchanged "
+            "(projection of every non-function member before/after)")
+
+
+def check_C09(tier):
+    return run_check("C09", tier, stages_C09(tier), C09_RULE, level="exploration",
+                     assumptions=EVAL_ASSUME + ["modification is observed through the projection Abs of every non-function member"])
+
+
+C10_FAMILIES = {"quick": [("coll", 4), ("mixed", 4), ("access", 4), ("builtin", 4), ("string", 4), ("logic", 4)],
+                "thorough": [("coll", 5), ("mixed", 5), ("access", 5), ("builtin", 5), ("string", 5), ("logic", 5)]}
+
+
+def stages_C10(tier):
+    out = []
+    for fam, n in C10_FAMILIES[tier]:
+        out.append(Stage("walk-%s-n%d" % (fam, n), "MC_Expr",
+                         gen_cfg(fam, n, emit="walk", invariants=("EmitWalk", "WalkBalanced")), "C10",
+                         modes="struct:noopt,struct:opt", timeout=1800))
+    for fam in ("mixed", "coll", "builtin"):
+        out.append(Stage("walk-%s-sim" % fam, "MC_Expr",
+                         gen_cfg(fam, 12, maxclosure=3, emit="walk", invariants=("EmitWalk", "WalkBalanced")), "C10",
+                         modes="struct:noopt,struct:opt", simulate=300 if tier == "quick" else 4000, depth=14, warm=False))
+    return out
+
+
+C10_RULE = ("TLC: every expression of six families up to the node budget (slices with 0-2 bounds, indexing, closures, "
+            "calls, methods, maps, arrays, conditionals) + random deep derivations; Walk!WalkSeq gives the promised "
+            "event sequence (WalkBalanced checked in every state); the real ast.Walk over parser.Parse(Src(t)) must "
+            "produce exactly that sequence of Enter/Exit events by node kind and enter no node twice; a Patch visitor "
+            "replacing the literal 1 by 2 must make Compile(Src(t)) behave as Compile(Src(Walk!Patch(t))) on every "
+            "assignment (value, failure, call log), optimizer on and off")
+
+
+def check_C10(tier):
+    return run_check("C10", tier, stages_C10(tier), C10_RULE, assumptions=EVAL_ASSUME)
+
+
+CHECKS = {"C09": check_C09, "C10": check_C10, "C01": check_C01, "C02": check_C02, "C05": check_C05, "C06": check_C06, "C07": check_C07,
           "C14": check_C14, "C15": check_C15, "C18": check_C18}
-STAGES = {"C01": stages_C01, "C02": stages_C02, "C05": stages_C05, "C06": stages_C06, "C07": stages_C07,
+STAGES = {"C09": stages_C09, "C10": stages_C10, "C01": stages_C01, "C02": stages_C02, "C05": stages_C05, "C06": stages_C06, "C07": stages_C07,
           "C14": stages_C14, "C15": stages_C15, "C18": stages_C18}
 
 
 def warm():
     """Pre-compute every quick corpus that does not depend on the seed."""
+    vf.prune_cache()
     jobs = []
     for prop, fn in STAGES.items():
         for s in fn("quick"):
